@@ -139,6 +139,11 @@ func (a *LevLPAgent) Step(s *Sim) {
 			if frac < 1 {
 				s.Stats.Probe("levlp_partial_close_submitted")
 			}
+			if r.IntN(8) == 0 {
+				// everything but dust: the close ratio rounds to 1 while a remainder stays
+				lp = pos.LeveragedLpAmount.SubRaw(int64(1 + r.IntN(5)))
+				s.Stats.Probe("levlp_all_but_dust_close_submitted")
+			}
 			s.SendTx(u, "levlp/close", &leveragelptypes.MsgClose{Creator: u.Addr.String(), Id: pos.Id, LpAmount: lp})
 		case act < 8:
 			ammPool, found := s.N0.App.AmmKeeper.GetPool(ctx, pos.AmmPoolId)
@@ -285,6 +290,10 @@ func (a *PerpAgent) Step(s *Sim) {
 			amt := sdkmath.LegacyNewDecFromInt(m.Custody).Mul(decFromFloat(frac)).TruncateInt()
 			if frac < 1 {
 				s.Stats.Probe("perp_partial_close_submitted")
+			}
+			if r.IntN(8) == 0 && m.Custody.GT(sdkmath.NewInt(10)) {
+				amt = m.Custody.SubRaw(int64(1 + r.IntN(5)))
+				s.Stats.Probe("perp_all_but_dust_close_submitted")
 			}
 			s.SendTx(u, "perp/close", &perpetualtypes.MsgClose{Creator: u.Addr.String(), Id: m.Id, Amount: amt})
 		case act < 8:
